@@ -241,6 +241,14 @@ def enums_rule(rep, prog, cfg):
             continue
         b = inlined(prog, bs[0], same_impl_helpers(bs[0], module=True, exclude=set(EXTRACTORS)))
         ptab, bad = parse_table(b, adt)
+        if not ptab:
+            # the table may have moved (e.g. from Status::from_frame into an `impl FromFieldValue for SingleMode`): it is found by
+            # what it constructs — the one function of the crate that compares strings and builds variants of this enum
+            cands = [x for x in prog.bodies.values() if x.crate == "mpd_client" and not x.raw.get("derived") and x.kind in ("Fn", "AssocFn", "Closure")
+                     and len(parse_table(x, adt)[0]) >= 2]
+            if len(cands) == 1:
+                b = cands[0]
+                ptab, bad = parse_table(b, adt)
         got = {}
         for lit, ci, v in ptab:
             got.setdefault(lit, set()).add(v)
